@@ -33,6 +33,18 @@ def spell(tok, quote='"'):
     if ty in ("IDENT", "INT", "FLOAT"):
         return lit
     if ty == "STRING":
+        # a literal body that contains a bare quote character is spelled with the other one
+        bare = set()
+        i = 0
+        while i < len(lit):
+            if lit[i] == "\\":
+                i += 2
+                continue
+            if lit[i] in "\"'":
+                bare.add(lit[i])
+            i += 1
+        if quote in bare:
+            quote = "'" if quote == '"' else '"'
         return quote + lit + quote
     if ty == "RAW_STRING":
         return "`" + lit + "`"
